@@ -51,8 +51,9 @@ def run(ctx):
     for cn in users:
         excluded = set()
         for c, o, _ in cfg.guards_of(cn):
-            for tn, vals in tabs:
-                if c is tn and o is False:
+            for tab in tabs:
+                tn, vals = tab
+                if c is tn and o is (not tab.pos):
                     excluded |= vals
         missing = (links | {"__setstate__"}) - excluded
         if missing:
@@ -62,10 +63,11 @@ def run(ctx):
         else:
             ctx.inst("P1", ga, cn.ast if cn.kind != "test" else cn.cond, "self.target evaluated only when name ∉ %s" % sorted(excluded))
     # excluded paths end in AttributeError
-    for tn, vals in tabs:
+    for tab in tabs:
+        tn, vals = tab
         ends = []
         for cn in cfg.nodes:
-            if cn.kind in ("return", "raisestmt") and any(c is tn and o is True for c, o, _ in cfg.guards_of(cn)):
+            if cn.kind in ("return", "raisestmt") and any(c is tn and o is tab.pos for c, o, _ in cfg.guards_of(cn)):
                 ends.append(cn)
         good = bool(ends)
         for cn in ends:
